@@ -96,6 +96,64 @@ func (c *Ctx) PolynomialFresh(prop string) {
 				}
 				root, G = r, h
 			}
+			// the list is a parameter of a helper that evaluates the shares: the list its (single) caller hands over
+			for d := 0; d < 3; d++ {
+				q, isParam := root.(*ssa.Parameter)
+				if !isParam || q.Parent() != G {
+					break
+				}
+				idx := -1
+				for i, qq := range G.Params {
+					if qq == q {
+						idx = i
+					}
+				}
+				sites := c.staticCallers()[G]
+				if idx < 0 || len(sites) != 1 || idx >= len(sites[0].Common().Args) {
+					break
+				}
+				root, G = sliceRootExact(sites[0].Common().Args[idx]), sites[0].Parent()
+				// ... which may itself come out of a helper
+				v := root
+				if ex, ok := v.(*ssa.Extract); ok {
+					v = ex.Tuple
+				}
+				if call, ok := v.(*ssa.Call); ok {
+					if h := call.Call.StaticCallee(); h != nil && !call.Call.IsInvoke() && prog.InModule(h) && h.Blocks != nil {
+						ridx := 0
+						if ex, ok := root.(*ssa.Extract); ok {
+							ridx = ex.Index
+						}
+						var r ssa.Value
+						same := true
+						for _, ret := range an.Returns(h) {
+							if ridx >= len(ret.Results) {
+								same = false
+								break
+							}
+							rv := sliceRootExact(an.Result(ret, ridx))
+							if k, isK := rv.(*ssa.Const); isK && k.Value == nil {
+								continue
+							}
+							if r != nil && r != rv {
+								same = false
+							}
+							r = rv
+						}
+						if same && r != nil {
+							root, G = r, h
+						}
+					}
+				}
+			}
+			if why, pos, isAppend := appendFormPolynomial(c, root, isBLS); isAppend {
+				if why != "" {
+					c.R.Fail(rule, Fn(G), pos, why+": the coefficients of the secret polynomial are no longer t independent draws (fewer than t participants may then be able to sign)", "every appended coefficient: a variable drawn by its own SetByCSPRNG call in the same iteration", nil)
+				} else {
+					c.R.OK(rule, Fn(G), pos, "every coefficient appended to the list handed to the share evaluation is drawn by SetByCSPRNG in the iteration that appends it")
+				}
+				continue
+			}
 			ms, ok := root.(*ssa.MakeSlice)
 			if !ok {
 				c.R.Unknown(rule, Fn(fn), c.Pos(K), "the coefficient list handed to the share evaluation is not a list made here or in the helper that returns it: "+an.Term(lst))
@@ -203,4 +261,140 @@ func (c *Ctx) PolynomialFresh(prop string) {
 	}
 	c.R.Floor(rule, "share evaluations (SecretKey.Set over a coefficient list) in the process service", n, 1)
 	_ = fmt.Sprint
+}
+
+// appendFormPolynomial: the list is built as `l := make([]T, 0, n); for … { var c T; c.SetByCSPRNG(); l = append(l, c) }`.
+// isAppend is false when the value is not of that family at all; otherwise why is "" (accepted) or the reason.
+func appendFormPolynomial(c *Ctx, lst ssa.Value, isBLS func(ssa.CallInstruction, ...string) bool) (why string, pos string, isAppend bool) {
+	// the values of the list variable: through phis and the first argument of appends
+	vals := map[ssa.Value]bool{}
+	var mk *ssa.MakeSlice
+	var apps []*ssa.Call
+	bad := ""
+	var walk func(v ssa.Value, d int)
+	walk = func(v ssa.Value, d int) {
+		if vals[v] || d > 12 {
+			return
+		}
+		vals[v] = true
+		switch x := v.(type) {
+		case *ssa.Phi:
+			for _, e := range x.Edges {
+				walk(e, d+1)
+			}
+		case *ssa.MakeSlice:
+			if mk != nil && mk != x {
+				bad = "the list starts from more than one make"
+			}
+			mk = x
+		case *ssa.Call:
+			if isBuiltin(x, "append") {
+				apps = append(apps, x)
+				walk(x.Call.Args[0], d+1)
+				return
+			}
+			bad = "the list is the result of " + CalleeName(x)
+		case *ssa.Slice:
+			walk(x.X, d+1)
+		default:
+			bad = "the list is built from " + an.Term(v)
+		}
+	}
+	if _, isPhi := lst.(*ssa.Phi); !isPhi {
+		if call, isCall := lst.(*ssa.Call); !isCall || !isBuiltin(call, "append") {
+			return "", "", false
+		}
+	}
+	walk(lst, 0)
+	if len(apps) == 0 {
+		return "", "", false
+	}
+	pos = c.Pos(apps[0])
+	if bad != "" {
+		return bad, pos, true
+	}
+	if mk == nil || !an.IsConstInt(mk.Len, 0) {
+		return "the list does not start empty", pos, true
+	}
+	if len(apps) != 1 {
+		return "the list is appended to in more than one place", pos, true
+	}
+	app := apps[0]
+	// nothing overwrites an element
+	for v := range vals {
+		if v.Referrers() == nil {
+			continue
+		}
+		for _, r := range *v.Referrers() {
+			if ia, ok := r.(*ssa.IndexAddr); ok {
+				for _, r2 := range *ia.Referrers() {
+					if st, ok := r2.(*ssa.Store); ok && st.Addr == ssa.Value(ia) {
+						return "an element of the list is overwritten", c.Pos(st), true
+					}
+					if ci, ok := r2.(ssa.CallInstruction); ok {
+						if !isBLS(ci, "GetPublicKey", "IsZero", "IsEqual", "Serialize", "SerializeToHexStr", "GetHexString", "GetLittleEndian") {
+							return "an element of the list is handed to " + CalleeName(ci), c.Pos(r2), true
+						}
+					}
+				}
+			}
+		}
+	}
+	elems := varargValuesT(app.Call.Args[1])
+	if len(elems) != 1 {
+		return "more than one value is appended at a time", pos, true
+	}
+	ld, ok := elems[0].(*ssa.UnOp)
+	if !ok {
+		return "the appended coefficient is not a variable of the iteration: " + an.Term(elems[0]), pos, true
+	}
+	cell, ok := ld.X.(*ssa.Alloc)
+	if !ok {
+		return "the appended coefficient is not a variable of the iteration: " + an.Term(elems[0]), pos, true
+	}
+	var draw ssa.Instruction
+	for _, r := range *cell.Referrers() {
+		switch x := r.(type) {
+		case *ssa.UnOp, *ssa.DebugRef:
+		case *ssa.Store:
+			if x.Addr != ssa.Value(cell) {
+				return "the address of the coefficient variable is stored", c.Pos(r), true
+			}
+			if k, isK := x.Val.(*ssa.Const); !isK || k.Value != nil {
+				return "the coefficient variable is assigned " + an.Term(x.Val), c.Pos(r), true
+			}
+		case ssa.CallInstruction:
+			if !isBLS(x) || len(x.Common().Args) == 0 || x.Common().Args[0] != ssa.Value(cell) {
+				return "the coefficient variable is handed to " + CalleeName(x), c.Pos(r), true
+			}
+			name := x.Common().StaticCallee().Name()
+			if name == "SetByCSPRNG" {
+				if draw != nil {
+					return "the coefficient variable is drawn in more than one place", c.Pos(r), true
+				}
+				draw = r
+				continue
+			}
+			for _, pre := range []string{"Set", "Deserialize", "Add", "Sub", "Mul", "Neg", "Inv", "Recover"} {
+				if strings.HasPrefix(name, pre) {
+					return "the coefficient variable is written by " + name, c.Pos(r), true
+				}
+			}
+		default:
+			return "the coefficient variable is used in a way the analysis does not follow", c.Pos(r), true
+		}
+	}
+	if draw == nil {
+		return "the appended coefficient is never drawn with SetByCSPRNG", pos, true
+	}
+	// the draw precedes the append on every path from the function's entry, and again between two appends
+	isDraw := func(i ssa.Instruction) bool { return i == draw }
+	target := ssa.Instruction(app)
+	if x, _ := an.Cut(an.CutQuery{From: an.Entry(app.Parent()), Target: func(i ssa.Instruction) bool { return i == target }, AcceptInstr: isDraw}); x != nil {
+		return "a coefficient can be appended before it was drawn", pos, true
+	}
+	if x, _ := an.Cut(an.CutQuery{From: an.After(app), Target: func(i ssa.Instruction) bool { return i == target }, AcceptInstr: isDraw}); x != nil {
+		return "two iterations can append the same draw", pos, true
+	}
+	return "", pos, true
 }
